@@ -397,6 +397,7 @@ func C20(p *core.Program, r *core.Report) {
 	n := g.checkGuarded(r, dtlsrGuarded, true)
 	r.Min("accesses to DTLSR state", 20)
 	r.Count("accesses to DTLSR state", n)
+	checkBroadcastOncePerPeer(p, r)
 }
 
 func rootParamIdx(fn *ssa.Function, base ssa.Value) int {
@@ -678,4 +679,39 @@ func checkOwnRecordAndPurge(p *core.Program, r *core.Report) {
 	})
 	r.Count("peer removals in purgePeers", nDel)
 	r.Min("peer removals in purgePeers", 1)
+}
+
+// checkBroadcastOncePerPeer: DTLSR selects the receivers of a link-state bundle with filterCLAs. "Once to every peer"
+// needs, per call, that a sender is taken only if its peer is neither in the bundle's sent list nor was taken earlier
+// in the same call (two active senders may lead to one peer): the membership test and the recording are kept in step.
+func checkBroadcastOncePerPeer(p *core.Program, r *core.Report) {
+	filter := p.Func(routingPkg, "", "filterCLAs")
+	n := 0
+	core.EachInstr(filter, func(in ssa.Instruction) {
+		c, ok := in.(*ssa.Call)
+		if !ok {
+			return
+		}
+		if b, ok := c.Common().Value.(*ssa.Builtin); !ok || b.Name() != "append" || !isSenderSlice(c.Type()) {
+			return
+		}
+		n++
+		cs := appendedSender(c)
+		lst, okG := membershipGuard(c.Block(), cs)
+		rec := false
+		for _, in2 := range c.Block().Instrs {
+			c2, ok := in2.(*ssa.Call)
+			if !ok {
+				continue
+			}
+			if b, ok := c2.Common().Value.(*ssa.Builtin); ok && b.Name() == "append" && isEIDSlice(c2.Type()) && isPeerIDOf(appendedSender(c2), cs) {
+				rec = okG && (c2.Common().Args[0] == lst || sameSource(c2.Common().Args[0], lst))
+			}
+		}
+		r.Check(okG && rec, "broadcast/"+fname(filter)+"/once-per-peer", "a sender is selected only on the not-found outcome of a membership test of its peer against the bundle's sent list, and the peer enters the tested list (or its index) in the same step: a second sender towards the same peer is excluded within the same call", p.Pos(c.Pos()), "", fmt.Sprintf("membership test in step with the recording: %v; recorded in the tested list: %v", okG, rec))
+	})
+	r.Min("selection sites in filterCLAs", 1)
+	r.Count("selection sites in filterCLAs", n)
+	sfb := p.Func(routingPkg, "DTLSR", "SenderForBundle")
+	r.Check(len(core.CallsTo(sfb, routingPkg+".filterCLAs")) > 0, "broadcast/"+fname(sfb)+"/uses-filter", "DTLSR selects the receivers of broadcast bundles through filterCLAs", p.Pos(sfb.Pos()), "", "no call to filterCLAs")
 }
